@@ -173,6 +173,23 @@ func hSource(n int) []byte {
 		copy(src[16+period:], w)
 		return src
 	}
+	if period >= 1000 && period < 2000 {
+		// match-length family: a run of one byte whose length is chosen by the solver among
+		// period-1000+1 values, then concrete pairwise-distinct bytes (at least `tail` of them, so
+		// that the compressors do not cut the match short): the long match takes every length in a
+		// window around the points where its length code gains an extension byte
+		free := period - 1000
+		pad := vfParam("tail")
+		run := n - free - pad + vfChoice("runext", free+1)
+		src := make([]byte, 0, n)
+		for i := 0; i < run; i++ {
+			src = append(src, 0x07)
+		}
+		for i := 0; len(src) < n; i++ {
+			src = append(src, byte(0x10+(i*37+11)%211))
+		}
+		return src
+	}
 	if period == 0 || period >= n {
 		return vfBytes("src", n)
 	}
